@@ -21,7 +21,9 @@ def cfg(q, mr, me, dump, inv=True):
     return s + "CHECK_DEADLOCK FALSE\n"
 
 
-ROOTS = ["r", "ord1", "a--b", "x--y--z", "клиент".encode("utf-8").decode("latin-1"), "id with space", "1--a", "A" * 40]
+ROOTS = ["r", "ord1", "a--b", "x--y--z", "клиент".encode("utf-8").decode("latin-1"), "id with space", "1--a", "A" * 40,
+         # "--" followed by digits in the middle of the root (the root does not END in --<n>), digits around the separator
+         "book--3--leg", "x17--20260922T", "7--7--x", "a--1b"]
 
 
 def execute(spec):
